@@ -91,6 +91,37 @@ func (e *env) execDL(op []string) (string, bool) {
 		case op[0] == "keyk" && len(op) == 1:
 			c, _ := d.CaptureEvent(vaxis.Key{Keycode: vaxis.KeyUp})
 			extra = cmdOf(c)
+		case (op[0] == "ev" || op[0] == "dev") && len(op) == 2:
+			// any event, delivered to the handler that looks at its type (keys: CaptureEvent, everything
+			// else: HandleEvent); "dev" = the same with DisableEventHandlers set
+			d.DisableEventHandlers = op[0] == "dev"
+			var c vxfw.Command
+			switch op[1] {
+			case "j":
+				c, _ = d.CaptureEvent(vaxis.Key{Keycode: 'j', Text: "j"})
+			case "down":
+				c, _ = d.CaptureEvent(vaxis.Key{Keycode: vaxis.KeyDown})
+			case "k":
+				c, _ = d.CaptureEvent(vaxis.Key{Keycode: 'k', Text: "k"})
+			case "up":
+				c, _ = d.CaptureEvent(vaxis.Key{Keycode: vaxis.KeyUp})
+			case "x":
+				c, _ = d.CaptureEvent(vaxis.Key{Keycode: 'x', Text: "x"})
+			case "wheeldown":
+				c, _ = d.HandleEvent(vaxis.Mouse{Button: vaxis.MouseWheelDown}, vxfw.TargetPhase)
+			case "wheelup":
+				c, _ = d.HandleEvent(vaxis.Mouse{Button: vaxis.MouseWheelUp}, vxfw.TargetPhase)
+			case "left":
+				c, _ = d.HandleEvent(vaxis.Mouse{Button: vaxis.MouseLeftButton}, vxfw.TargetPhase)
+			case "keytohandle":
+				c, _ = d.HandleEvent(vaxis.Key{Keycode: 'j', Text: "j"}, vxfw.TargetPhase)
+			case "mousetocapture":
+				c, _ = d.CaptureEvent(vaxis.Mouse{Button: vaxis.MouseWheelDown})
+			default:
+				c, _ = d.HandleEvent(vaxis.FocusIn{}, vxfw.TargetPhase)
+			}
+			d.DisableEventHandlers = false
+			extra = cmdOf(c)
 		case op[0] == "wheeldown" && len(op) == 1:
 			c, _ := d.HandleEvent(vaxis.Mouse{Button: vaxis.MouseWheelDown}, vxfw.TargetPhase)
 			extra = cmdOf(c)
@@ -366,7 +397,19 @@ func genDyn(e *env, rng *gen.Rng) {
 			case 5:
 				ops = append(ops, "dl keyj")
 			case 6:
-				ops = append(ops, "dl keyk")
+				if rng.Chance(1, 3) {
+					ops = append(ops, "dl keyk")
+				} else {
+					kinds := []string{"j", "down", "k", "up", "x", "wheeldown", "wheelup", "left", "keytohandle", "mousetocapture", "focus"}
+					k := kinds[rng.Intn(len(kinds))]
+					if rng.Chance(1, 5) {
+						ops = append(ops, "dl dev "+k)
+						r.Count("dl-event-disabled")
+					} else {
+						ops = append(ops, "dl ev "+k)
+						r.Count("dl-event-" + k)
+					}
+				}
 			case 7:
 				ops = append(ops, "dl wheeldown")
 			case 8:
